@@ -90,10 +90,6 @@ MANIFEST = {
     'design_ref': 'DESIGN.md §4 C02',
     'technique': 'Lean 4 totality theorems on the pagination model (root assertion unreachable for every document), '
                  'outcome-kind correspondence with the real layout and PDF writer on adversarial documents',
-    'text': 'Proved for all documents of the block/paragraph grammar: make_page never fails its root assertion, a '
-            'pagination that returns has at least one page, and make_all_pages can only fail by exhausting explicit '
-            'fuel. Outcome kinds (pages vs exception class) are compared with the real code on random and adversarial '
-            'documents, through layout and through write_pdf.',
-    'note': 'Partial: the page-count bound (strict progress) is not yet a theorem; code outside the pagination model is '
-            'covered only by the sampled totality runs, which are validation, not proof.',
+    'text': 'Proved for all documents of the block/paragraph grammar: make_page never fails its root assertion; pagination terminates with at most 2*size(document) pages and at least one (C02.paginate_terminates, from the strict-progress theorem), so the explicit fuel of the model is irrelevant. Outcome kinds (pages vs exception class) are compared with the real code on random and adversarial documents, through layout and through write_pdf.',
+    'note': 'Partial: totality is a theorem only for the pagination model (no fixed heights, orphans/widows >= 1); code outside it (inline layout, tables, flex, grid, drawing, PDF writing) is covered by the sampled totality runs, which are validation, not proof.',
 }
